@@ -177,6 +177,37 @@ InsideExact(sr, G) == IsFinSR(sr) \/ ~HasCycle(SpanEdges(G))
 TreeSumExact(sr, G) == IsFinSR(sr) \/ ~HasCycle(DepEdges(G))
 
 ---------------------------------------------------------------------------
+(* Deterministic right-linear proper grammars (rules X -> t Y and X -> eps, at most one rule per (X, t), the rule   *)
+(* weights of every head sum to one, every nonterminal can terminate).  Every nonterminal then has total weight    *)
+(* one, a context determines one state, and the next-token distribution is a function of that state alone:         *)
+(*     p(t | ctx) = w  if  StateAfter(ctx) -> t Y has weight w,     p(eos | ctx) = weight of StateAfter(ctx) -> eps *)
+(* This closed form is what lets contexts of HUNDREDS of tokens be judged (the inside oracle is cubic); MCGrammarSem *)
+(* checks it against PrefixWeight on short contexts.                                                                *)
+IsRLRule(G, r) == LET b == G.rules[r].b IN b = <<>> \/ (Len(b) = 2 /\ b[1] \in TermSet(G) /\ b[2] \notin TermSet(G))
+DetRL(G) ==
+  /\ \A r \in DOMAIN G.rules : IsRLRule(G, r)
+  /\ \A r1, r2 \in DOMAIN G.rules :
+        (r1 # r2 /\ G.rules[r1].h = G.rules[r2].h /\ G.rules[r1].b # <<>> /\ G.rules[r2].b # <<>>)
+           => G.rules[r1].b[1] # G.rules[r2].b[1]
+ProperRL(sr, G) ==
+  /\ \A X \in Heads(G) : SumSeq(sr, [r \in DOMAIN G.rules |-> IF G.rules[r].h = X THEN G.rules[r].w ELSE Zero(sr)]) = One(sr)
+  /\ NTs(G) \subseteq (Heads(G) \cap Generating(G))
+DEAD == "!dead"
+RLStep(G, X, t) ==
+  IF X = DEAD THEN DEAD
+  ELSE IF \E r \in DOMAIN G.rules : G.rules[r].h = X /\ G.rules[r].b # <<>> /\ G.rules[r].b[1] = t
+       THEN G.rules[CHOOSE r \in DOMAIN G.rules : G.rules[r].h = X /\ G.rules[r].b # <<>> /\ G.rules[r].b[1] = t].b[2]
+       ELSE DEAD
+RECURSIVE StateAfterFrom(_, _, _, _)
+StateAfterFrom(G, X, ctx, i) == IF i > Len(ctx) THEN X ELSE StateAfterFrom(G, RLStep(G, X, ctx[i]), ctx, i + 1)
+StateAfter(G, ctx) == StateAfterFrom(G, G.S, ctx, 1)
+RLNext(sr, G, X, t) ==          \* t = "" stands for end-of-sequence
+  IF X = DEAD THEN Zero(sr)
+  ELSE SumSeq(sr, [r \in DOMAIN G.rules |->
+         IF G.rules[r].h = X /\ ((t = "" /\ G.rules[r].b = <<>>) \/ (t # "" /\ G.rules[r].b # <<>> /\ G.rules[r].b[1] = t))
+         THEN G.rules[r].w ELSE Zero(sr)])
+
+---------------------------------------------------------------------------
 (* The weighted language up to a length bound, as a set of <<string, w>>.  *)
 Lang(sr, G, L) ==
   {<<s, Weight(sr, G, s)>> : s \in {s \in Strs(TermSet(G), L) : Weight(sr, G, s) # Zero(sr)}}
